@@ -233,7 +233,8 @@ fn gen_c15(tier: &str, rng: &mut Rng) -> Vec<Case> {
     let n = if tier == "thorough" { 60000 } else { 3000 };
     let mut cases = Vec::new();
     for gi in 0..n {
-        let (mut html, _) = gen_doc(rng, GenOpts::all());
+        let opt = rng.below(9);
+        let (mut html, _) = gen_doc(rng, GenOpts { odd_links: opt == 7, ..GenOpts::all() });
         // strikeout (and other inline markup) around whole blocks, pretty-printed
         if rng.chance(1, 5) {
             let name = *rng.pick(&["del", "s", "em", "code"]);
@@ -247,7 +248,9 @@ fn gen_c15(tier: &str, rng: &mut Rng) -> Vec<Case> {
             base.footnotes = 1;
         }
         let w = if rng.chance(1, 4) { rng.range(1, 12) } else { rng.range(1, 100) };
-        let opt = rng.below(9);
+        if opt == 7 && rng.chance(2, 3) {
+            base.footnotes = 1;
+        }
         let mut var = base.clone();
         let slice: &'static str = match opt {
             0 => {
@@ -433,6 +436,18 @@ fn check_c15(cases: &[Case], results: &[Option<RunResult>]) -> Vec<Violation> {
             "no_link_wrap" => {
                 if count_links(&dom) == 0 && !same {
                     v.push(viol(b, "no_link_wrapping changed a link-free document", String::new(), None));
+                }
+                // the option only stops the hard wrapping of the footnote list: with the line breaks
+                // taken out, both outputs are the same text
+                if let (Some(x), Some(y)) = (&ta, &tb) {
+                    let (jx, jy) = (x.replace('\n', ""), y.replace('\n', ""));
+                    if jx != jy {
+                        v.push(viol(b, "no_link_wrapping changed more than the line breaks of the footnote list", format!("{:?} vs {:?}", jx.chars().rev().take(120).collect::<String>().chars().rev().collect::<String>(), jy.chars().rev().take(120).collect::<String>().chars().rev().collect::<String>()), None));
+                    } else if x.split('\n').count() < y.split('\n').count() {
+                        v.push(viol(b, "no_link_wrapping produced more lines than wrapping", String::new(), None));
+                    }
+                } else if ra.outcome.kind() != rb.outcome.kind() {
+                    v.push(viol(b, "no_link_wrapping changed the outcome", String::new(), None));
                 }
             }
             _ => {}
@@ -815,7 +830,7 @@ fn gen_c09(tier: &str, rng: &mut Rng) -> Vec<Case> {
     for _ in 0..n {
         let tables = rng.chance(1, 3);
         let css = rng.chance(1, 3);
-        let o = GenOpts { tables: if tables { 1 } else { 0 }, nested_tables: false, links: true, ids: false, pre: true, dl: true, imgs: true, strike: true, sup: rng.chance(1, 2), colours: css, combining: false, wide: false, ..Default::default() };
+        let o = GenOpts { tables: if tables { 1 } else { 0 }, nested_tables: false, links: true, ids: false, pre: true, dl: true, imgs: true, strike: true, sup: rng.chance(1, 2), colours: css, combining: false, wide: false, odd_links: true, ..Default::default() };
         let (mut html, _) = gen_doc(rng, o);
         // an annotating element around whole blocks: its annotation must reach the text inside
         // list items, quotes, headings and table cells (they are rendered by nested sub-renderers)
@@ -1423,7 +1438,9 @@ fn check_c03(cases: &[Case], results: &[Option<RunResult>]) -> Vec<Violation> {
         // other cells): drop these three characters on both sides
         let supch = |ch: &char| *ch == '^' || *ch == '{' || *ch == '}';
         let out: Vec<char> = if has_sup { out.into_iter().filter(|ch| !supch(ch)).collect() } else { out };
-        let visn: Vec<char> = if has_sup { vis.iter().filter(|ch| !supch(ch)).copied().collect() } else { vis.clone() };
+        // (digits-only superscripts print as superscript digits: both sides are mapped back, so a
+        // superscript digit in the source text compares equal to itself)
+        let visn: Vec<char> = if has_sup { vis.iter().filter(|ch| !supch(ch)).copied().map(sup_back).collect() } else { vis.iter().copied().map(sup_back).collect() };
         let ordered = !has_table || c.spec.cfg.raw == 1;
         let ok = if ordered {
             out == visn
